@@ -25,6 +25,10 @@ theorem d_enabled {s : St} {a : DAct} (hx : s.exited = none) (hsp : (Label.d a).
     (h : (dStep s a).isSome = true) : CanMove s :=
   ⟨.d a, by simp [Label.proper, hsp, Label.isEnv], by rw [step_of_d hx]; exact h⟩
 
+theorem g_enabled {s : St} {a : GAct} (hx : s.exited = none) (ha : a ≠ .wake) (h : (gStep s a).isSome = true) :
+    CanMove s :=
+  ⟨.g a, by cases a <;> simp_all [Label.proper, Label.spurious, Label.isEnv], by rw [step_of_wd hx]; exact h⟩
+
 /-! ## `_fwd_signal`: there is a next READING slot to signal, or the scan is over -/
 
 theorem noReading_succ (ts : List TS) (k m : Nat) :
@@ -62,6 +66,10 @@ theorem thd_holder_moves {s : St} (h : Inv s) (hx : s.exited = none) (hthd : s.t
     · exact w_enabled (a := .time) hx (getElem?_of_getD' hp (by simp)) (by simp [wNext]; rfl) (by simp) (by simp)
     · exact w_enabled (a := .unlockT) hx (getElem?_of_getD' hp (by simp)) (by simp [wNext]; rfl) (by simp) (by simp)
     · exact w_enabled (a := .unlockT) hx (getElem?_of_getD' hp (by simp)) (by simp [wNext]; rfl) (by simp) (by simp)
+  | g =>
+    have hh := h.w.thdG2 ho
+    cases hg : s.gpc <;> rw [hg] at hh <;> simp [GPC.holds] at hh
+    exact g_enabled (a := .unlockT) hx (by simp) (by simp [gStep, hg])
   | s =>
     rcases h.m.thdS2 ho with hs | hs
     · cases hsp : s.spc <;> rw [hsp] at hs <;> simp [SPC.holdsT] at hs
@@ -86,6 +94,7 @@ theorem own_holder_moves {s : St} (h : Inv s) (hx : s.exited = none) (hown : s.o
     cases hp : pc s k <;> rw [hp] at hh <;> simp [holdsW] at hh
     · exact w_enabled (a := .signal) hx (getElem?_of_getD' hp (by simp)) (by simp [wNext]; rfl) (by simp) (by simp)
     · exact w_enabled (a := .unlock) hx (getElem?_of_getD' hp (by simp)) (by simp [wNext]; rfl) (by simp) (by simp)
+  | g => exact absurd ho h.w.ownG
   | s =>
     rcases h.m.ownS2 ho with hs | hs
     · exact s_enabled (a := .unlock) hx (by simp [sStep, hs])
@@ -139,6 +148,36 @@ theorem not_cancelled {s : St} (h : Inv s) (h1 : s.dpc ≠ .finishing) (h2 : s.d
   · exact h1 h
   · exact h2 h
 
+/-- before the signals thread exists: create the watchdog (repaired shutdown only), then the signals thread -/
+theorem startup {s : St} (hx : s.exited = none) (hoff : s.spc = .off) : CanMove s := by
+  by_cases hg : s.sw = true ∧ s.gpc = .off
+  · exact d_enabled (a := .createG) hx rfl (by simp [dStep, hg.1, hg.2, hoff])
+  · exact d_enabled (a := .createS) hx rfl (by simp only [dStep, hoff]; rw [if_neg hg]; rfl)
+
+/-- dsh() is finishing: stop the watchdog (repaired shutdown only; it may have to finish its scan, for which it
+    may need thd_mutex, which the signals thread — still alive — releases), then the signals thread, then return -/
+theorem finishing_moves {s : St} (h : Inv s) (hx : s.exited = none) (hd : s.dpc = .finishing) : CanMove s := by
+  by_cases hc : s.spc = .cancelled
+  · exact d_enabled (a := .ret) hx rfl (by simp [dStep, hd, hc])
+  by_cases hj : s.sw = true ∧ s.gjoin = false
+  · obtain ⟨hsw, hgj⟩ := hj
+    cases hcan : s.gcan with
+    | false => exact d_enabled (a := .cancelG) hx rfl (by simp [dStep, hd, hsw, hcan])
+    | true =>
+      obtain ⟨hns, hnoff, _⟩ := h.w.can hcan
+      cases hg : s.gpc with
+      | off => exact absurd hg hnoff
+      | sleeping => exact absurd hg hns
+      | ended => exact d_enabled (a := .joinG) hx rfl (by simp [dStep, hd, hcan, hg, hgj])
+      | inside k => exact g_enabled (a := .unlockT) hx (by simp) (by simp [gStep, hg])
+      | «at» k =>
+        by_cases ht : s.thd = .none
+        · exact g_enabled (a := .lockT) hx (by simp) (by simp [gStep, hg, ht])
+        · exact thd_holder_moves h hx ht hc
+  · exact d_enabled (a := .cancelS) hx rfl (by
+      simp only [dStep, hd]
+      rw [if_neg (by intro hh; rcases hh with hh | hh; exact hc hh; exact hj hh)]; rfl)
+
 theorem progress_inv {s : St} (h : Inv s) (hf : 0 < s.f) (hx : s.exited = none) (hnf : s.dpc ≠ .returned) :
     CanMove s := by
   have parkedCase : s.dpc.holds = false → s.dpc ≠ .finishing → 0 < s.tc + s.ws.countP isLocked → CanMove s := by
@@ -157,7 +196,7 @@ theorem progress_inv {s : St} (h : Inv s) (hf : 0 < s.f) (hx : s.exited = none) 
   cases hd : s.dpc with
   | top =>
     by_cases hoff : s.spc = .off
-    · exact d_enabled (a := .createS) hx rfl (by simp [dStep, hoff])
+    · exact startup hx hoff
     · rcases free_or_move h hx (by rw [hd]; rfl) (not_cancelled h (by simp [hd]) hnf) with ho | hm
       · exact d_enabled (a := .lock) hx rfl (by simp [dStep, hd, ho, hoff, roomTest])
       · exact hm
@@ -180,7 +219,7 @@ theorem progress_inv {s : St} (h : Inv s) (hf : 0 < s.f) (hx : s.exited = none) 
   | unlock => exact d_enabled (a := .unlock) hx rfl (by simp [dStep, hd])
   | dtop =>
     by_cases hoff : s.spc = .off
-    · exact d_enabled (a := .createS) hx rfl (by simp [dStep, hoff])
+    · exact startup hx hoff
     · rcases free_or_move h hx (by rw [hd]; rfl) (not_cancelled h (by simp [hd]) hnf) with ho | hm
       · exact d_enabled (a := .lock) hx rfl (by simp [dStep, hd, ho, hoff, drainTest])
       · exact hm
@@ -196,10 +235,7 @@ theorem progress_inv {s : St} (h : Inv s) (hf : 0 < s.f) (hx : s.exited = none) 
     · exact d_enabled (a := .relock) hx rfl (by simp [dStep, hd, ho, drainTest])
     · exact hm
   | dunlock => exact d_enabled (a := .unlock) hx rfl (by simp [dStep, hd])
-  | finishing =>
-    by_cases hc : s.spc = .cancelled
-    · exact d_enabled (a := .ret) hx rfl (by simp [dStep, hd, hc])
-    · exact d_enabled (a := .cancelS) hx rfl (by simp [dStep, hd, hc])
+  | finishing => exact finishing_moves h hx hd
   | returned => exact absurd hd hnf
 
 end PdshVerif.Dsh.Sig
